@@ -74,6 +74,11 @@ CHECKS = {
          "For each corpus graph (every node kind and edge kind, hash-consed; plus one variant with a structurally equal twin, one with random ImplStored tags and one with two random tag types): predecessors of every node (list and set variants, with/without functions) must contain every field child with its multiplicity and nothing but field children and computed-shape components; get_list_of_users/get_nusers must be the converse of pytato's own predecessor relation with multiplicity and contain every field edge; get_users must agree with it on array users and rec_get_user_nodes must be its transitive closure; the topological order must list every array once and after all its children; node/type counts and multiplicities must equal distinct nodes / distinct objects; tag counts must equal the tagged nodes; the materialised set must contain every input, receive, call-bound and stored node (+ outputs when asked) and nothing outside those plus documented by-type members.",
          "Documented conventions (send payload is not a use; dictionaries are not users; calls are transparent in UsersCollector; analyses stay in the call-site namespace; NormalizedSlice bounds are never traversed; computed-shape components may be reported) are tolerated and counted. Node equality/hash trusted as checked by C04.",
          "DESIGN.md §3 C20"),
+ "C05": ("exploration",
+         "metamorphic runtime oracle: reference evaluation of T(g) vs reference evaluation of g for every transformation and random pipelines; frozen-input monitor (structural fingerprint incl. object identity of wrapped data, bytes of wrapped arrays, read-only buffers); idempotence and tags-only monitors; sampled compiled execution",
+         "Programs of C01's space are built with random pre-tags (arrays, axes, reductions, implementation strategies), in three shapes (hash-consed, natural with duplicates, one injected twin) plus aliasing wrappers over one buffer; each of CopyMapper, map_and_copy(id), deduplicate, deduplicate_data_wrappers, eliminate_dead_code, materialize_with_mpms, unify_axes_tags and code-generation preprocessing/lowering, and two random pipelines of length 2-4, is applied. Output names, declared shape/dtype, value under the reference evaluator (bitwise for copy-like transformations, Monte-Carlo-arithmetic tolerance after lowering), fingerprint of the input before/after, bytes of wrapped data, T(T g) == T g and tag-stripped equality are checked on every application; one in 6-16 cases is also compiled and executed.",
+         "vf.oracle.refeval is the meaning of a graph; cases where it disagrees with the NumPy shadow on the untransformed graph are skipped (C01/C02's business). Collision/duplicate errors on inputs that contain duplicates are the documented refusal.",
+         "DESIGN.md §3 C05"),
 }
 
 NOT_YET = {
